@@ -364,7 +364,25 @@ func compatMap(h string) string {
 // class explains the verdict (used in counters and signatures).
 func hostVerdict(h string, roots []string) (verdict int, class string) {
 	if strings.HasPrefix(h, "[") {
-		return domOut, "ip-literal"
+		// bracketed host. A syntactically valid IPv6 (or IPvFuture) literal - with or without an
+		// RFC 6874 zone - is an IP address, never a name inside a root domain. Anything else between
+		// brackets is not a URI host at all: conforming clients refuse it, lenient ones strip the
+		// brackets and look the content up as a name, so the content is judged as a name.
+		inner := h[1:]
+		if k := strings.IndexByte(inner, ']'); k >= 0 {
+			inner = inner[:k]
+		}
+		addr := inner
+		if k := strings.IndexByte(addr, '%'); k >= 0 {
+			addr = addr[:k]
+		}
+		if validIPv6(addr) || isIPvFuture(addr) {
+			return domOut, "ip-literal"
+		}
+		if suffixIn(strings.TrimSuffix(inner, "."), roots) {
+			return domDontCare, "bracketed-non-ip-name-in-domain"
+		}
+		return domOut, "bracketed-foreign-name"
 	}
 	ascii := true
 	for i := 0; i < len(h); i++ {
@@ -380,10 +398,15 @@ func hostVerdict(h string, roots []string) (verdict int, class string) {
 		return domOut, "foreign-host"
 	}
 	// non-ASCII host: the statement does not settle IDNA mapping
+	m := compatMap(h)
 	if suffixIn(h, roots) {
+		if strings.ContainsAny(m, "/?#\\@:") {
+			// "HostSplit" shape: in-domain as bytes, but compatibility mapping turns a character into a
+			// URL delimiter. Conforming browsers refuse such names; what legacy clients do is unsettled.
+			return domDontCare, "nonascii-maps-to-delimiter"
+		}
 		return domIn, "nonascii-in-by-bytes"
 	}
-	m := compatMap(h)
 	if strings.ContainsAny(m, "/?#\\@:[]<>^| %") {
 		// the mapped name contains a forbidden host code point: a browser refuses to navigate
 		return domDontCare, "nonascii-unmappable"
@@ -392,6 +415,84 @@ func hostVerdict(h string, roots []string) (verdict int, class string) {
 		return domDontCare, "nonascii-in-after-idna"
 	}
 	return domOut, "foreign-host"
+}
+
+func isHexDigit(c byte) bool { return unhex(c) >= 0 }
+
+func validIPv4(s string) bool {
+	fs := strings.Split(s, ".")
+	if len(fs) != 4 {
+		return false
+	}
+	for _, f := range fs {
+		if len(f) == 0 || len(f) > 3 {
+			return false
+		}
+		n := 0
+		for i := 0; i < len(f); i++ {
+			if !isDigit(f[i]) {
+				return false
+			}
+			n = n*10 + int(f[i]-'0')
+		}
+		if n > 255 {
+			return false
+		}
+	}
+	return true
+}
+
+// validIPv6 checks the IPv6address grammar of RFC 3986 (without zone).
+func validIPv6(s string) bool {
+	if s == "" || strings.Count(s, "::") > 1 {
+		return false
+	}
+	groups := func(p string, v4Tail bool) (int, bool) {
+		if p == "" {
+			return 0, true
+		}
+		fs := strings.Split(p, ":")
+		n := 0
+		for i, f := range fs {
+			if i == len(fs)-1 && v4Tail && strings.Contains(f, ".") {
+				if !validIPv4(f) {
+					return 0, false
+				}
+				n += 2
+				continue
+			}
+			if len(f) < 1 || len(f) > 4 {
+				return 0, false
+			}
+			for k := 0; k < len(f); k++ {
+				if !isHexDigit(f[k]) {
+					return 0, false
+				}
+			}
+			n++
+		}
+		return n, true
+	}
+	parts := strings.Split(s, "::")
+	if len(parts) == 1 {
+		n, ok := groups(parts[0], true)
+		return ok && n == 8
+	}
+	a, ok1 := groups(parts[0], false)
+	b, ok2 := groups(parts[1], true)
+	return ok1 && ok2 && a+b <= 7
+}
+
+// isIPvFuture: "v" 1*HEXDIG "." 1*( unreserved / sub-delims / ":" )
+func isIPvFuture(s string) bool {
+	if len(s) < 4 || (s[0] != 'v' && s[0] != 'V') {
+		return false
+	}
+	k := 1
+	for k < len(s) && isHexDigit(s[k]) {
+		k++
+	}
+	return k > 1 && k < len(s)-1 && s[k] == '.'
 }
 
 // ---- tiny query reader (independent of net/url) ---------------------------------------------------
